@@ -231,7 +231,7 @@ func c13alphabet() []string {
 		gw.EvB("broker PUBLISH(w/n,q2)", refmqtt.EncPublish("w/n", 2, false, false, 6, []byte("b"))),
 		gw.EvB("broker PUBLISH(xy,q0)", refmqtt.EncPublish("xy", 0, false, false, 0, []byte("b"))),
 		gw.EvC("DISCONNECT(5)", gw.Disconnect(5)),
-		gw.EvC("DISCONNECT(30)", gw.Disconnect(30)),
+		gw.EvC("DISCONNECT(256)", gw.Disconnect(256)), // a duration whose low octet is 0
 		gw.EvC("PINGREQ", gw.Pingreq("c1")),
 		gw.EvAdvance(6 * time.Second),
 		gw.EvStall,
